@@ -362,11 +362,15 @@ def _judge_job(job):
 
 
 def load_findings():
-    p = os.path.join(VERIF, "known_findings.json")
-    if not os.path.exists(p):
-        return []
-    with open(p) as f:
-        return json.load(f).get("findings", [])
+    """known_findings/<Cxx>.json (committed by hand, never written at run time)"""
+    d = os.path.join(VERIF, "known_findings")
+    out = []
+    if os.path.isdir(d):
+        for fn in sorted(os.listdir(d)):
+            if fn.endswith(".json"):
+                with open(os.path.join(d, fn)) as f:
+                    out.extend(json.load(f).get("findings", []))
+    return out
 
 
 def main(prop_module, argv=None):
